@@ -263,6 +263,9 @@ extern "C" int harness_main() {
 #endif
   InvocationOpts o; o.targets = symbolic_targets(sc, "request_target"); o.run.parallelism = 1 + verif_choice("jobs_minus_1", 3);
   o.real_status = true; o.run.prints_output = true;
+#ifdef NO_PRINTS
+  o.run.prints_output = false;      // commands are silent: only the status lines and counters are checked
+#endif
 #ifdef WITH_FAILURES
   o.run.may_fail = true; o.failures_allowed = 1 + verif_choice("keep_going_minus_1", 2);
 #endif
